@@ -4,6 +4,7 @@ from __future__ import annotations
 
 import logging
 import os
+import re
 import shlex
 import signal
 import subprocess
@@ -192,13 +193,16 @@ def write_for_run(
     with open(infile) as readfile:
         with open(outfile, "w") as writefile:
             for line in readfile:
-                spl = line.split()
-                for var in input_settings.keys():
-                    if var in spl:
-                        line = line.replace(var, str(input_settings[var]))
-                        # remove found item from dict
-                        not_found.pop(var, None)
-
+                for var in line.split():
+                    # remove found item from dict
+                    not_found.pop(var, None)
+                # replace whole words only: a variable name inside another
+                # word, a comment or an already written value is left alone
+                line = re.sub(
+                    r"\S+",
+                    lambda m: str(input_settings.get(m.group(0), m.group(0))),
+                    line,
+                )
                 writefile.write(line)
     # check if we found all keys
     if len(not_found.keys()) != 0:
